@@ -184,8 +184,8 @@ def run_property(pid, tier, seed):
         else:
             hit = set()
             for o in rc.failed:
-                if o['kind'].startswith('postcondition') and (o.get('clause') or '').strip().rstrip(',') == 'false':
-                    hit.add(o['function'])
+                if o['kind'].startswith('postcondition') and (o.get('clause') or '').strip().rstrip(',') == 'false' and o['function'].endswith('__canary'):
+                    hit.add(o['function'][:-len('__canary')])
             for nm in gc.canaried:
                 if nm not in hit and nm not in failed_fns:
                     inconclusive.append('vacuity unit=%s fn=%s: `ensures false` was PROVED under its requires clause (contradictory precondition or no reachable exit)' % (unit, nm))
